@@ -20,19 +20,29 @@ Inductive coming := CNone | CAbove | CBelow.
 (* ListBox.set_focus_pending: None | "first selectable" | (coming_from, widget, old position) *)
 Inductive pending := PNone | PFirst | PSet (cf : coming) (old : Z).
 
+(* ListBox.set_focus_valign_pending: None | (valign type, amount) *)
+Inductive valign := VTop | VMiddle | VBottom | VRel (percent : Z).
+
 (* the ListBox attributes the view depends on + the walker (items, focus) *)
-Record lb := { items : list item; focus : Z; off : Z; inum : Z; iden : Z; pend : pending }.
+Record lb := { items : list item; focus : Z; off : Z; inum : Z; iden : Z; pend : pending;
+               vpend : option valign }.
 
 Definition set_view (s : lb) (o n d : Z) : lb :=
-  {| items := items s; focus := focus s; off := o; inum := n; iden := d; pend := pend s |}.
+  {| items := items s; focus := focus s; off := o; inum := n; iden := d; pend := pend s; vpend := vpend s |}.
 Definition set_focus_view (s : lb) (f o n d : Z) : lb :=
-  {| items := items s; focus := f; off := o; inum := n; iden := d; pend := pend s |}.
+  {| items := items s; focus := f; off := o; inum := n; iden := d; pend := pend s; vpend := vpend s |}.
 Definition set_pend (s : lb) (p : pending) : lb :=
-  {| items := items s; focus := focus s; off := off s; inum := inum s; iden := iden s; pend := p |}.
+  {| items := items s; focus := focus s; off := off s; inum := inum s; iden := iden s; pend := p;
+     vpend := vpend s |}.
+Definition set_vpend (s : lb) (v : option valign) : lb :=
+  {| items := items s; focus := focus s; off := off s; inum := inum s; iden := iden s; pend := pend s;
+     vpend := v |}.
+(* self.set_focus_valign_pending = None; self.set_focus_pending = None *)
+Definition clear_pending (s : lb) : lb := set_vpend (set_pend s PNone) None.
 Definition set_body_focus (s : lb) (f : Z) : lb :=
-  {| items := items s; focus := f; off := off s; inum := inum s; iden := iden s; pend := pend s |}.
+  {| items := items s; focus := f; off := off s; inum := inum s; iden := iden s; pend := pend s; vpend := vpend s |}.
 Definition set_items (s : lb) (its : list item) (f : Z) : lb :=
-  {| items := its; focus := f; off := off s; inum := inum s; iden := iden s; pend := pend s |}.
+  {| items := its; focus := f; off := off s; inum := inum s; iden := iden s; pend := pend s; vpend := vpend s |}.
 
 (* [(s, rows l0); (s+1, rows l1); ...] *)
 Fixpoint number (s : Z) (l : list item) : list fitem :=
@@ -233,9 +243,8 @@ Definition shift_focus (s : lb) (maxrow oi : Z) : result lb :=
 Definition is_above (c : coming) := match c with CAbove => true | _ => false end.
 Definition is_below (c : coming) := match c with CBelow => true | _ => false end.
 
-(* the "snap to selectable widgets" part of ListBox.change_focus (snap_rows = maxrow - 1) *)
-Definition snap (maxrow tgt_rows oi : Z) (sel : bool) (cf : coming) : Z :=
-  let snap_rows := maxrow - 1 in
+(* the "snap to selectable widgets" part of ListBox.change_focus *)
+Definition snap_sr (snap_rows maxrow tgt_rows oi : Z) (sel : bool) (cf : coming) : Z :=
   let align_top := 0 in
   let align_bottom := maxrow - tgt_rows in
   let oi :=
@@ -250,18 +259,25 @@ Definition snap (maxrow tgt_rows oi : Z) (sel : bool) (cf : coming) : Z :=
     else oi + snap_rows
   else oi.
 
-(* ListBox.change_focus -- WRITER 2 (cursor_coords=None, snap_rows=None; the item widgets have
-   no move_cursor_to_coords, so the function ends after the offset/inset assignment) *)
-Definition change_focus (s : lb) (maxrow position oi : Z) (cf : coming) : result lb :=
+(* snap_rows=None: snap_rows = maxrow - 1 *)
+Definition snap (maxrow tgt_rows oi : Z) (sel : bool) (cf : coming) : Z :=
+  snap_sr (maxrow - 1) maxrow tgt_rows oi sel cf.
+
+(* ListBox.change_focus -- WRITER 2.  The item widgets have no move_cursor_to_coords, so the
+   function ends after the offset/inset assignment and cursor_coords only sets pref_col. *)
+Definition change_focus_sr (s : lb) (maxrow position oi : Z) (cf : coming) (snap_rows : Z) : result lb :=
   match nthz (items s) position with
   | None => Err IndexError                      (* self._body.set_focus(position) *)
   | Some target =>
       let tgt_rows := i_rows target in
-      let oi := snap maxrow tgt_rows oi (i_sel target) cf in
+      let oi := snap_sr snap_rows maxrow tgt_rows oi (i_sel target) cf in
       if 0 <=? oi then Ok (set_focus_view s position oi 0 1)
       else if oi + tgt_rows <=? 0 then Err ListBoxError
       else Ok (set_focus_view s position 0 (- oi) tgt_rows)
   end.
+
+Definition change_focus (s : lb) (maxrow position oi : Z) (cf : coming) : result lb :=
+  change_focus_sr s maxrow position oi cf (maxrow - 1).
 
 (* ListBox.make_cursor_visible *)
 Definition make_cursor_visible (s : lb) (maxrow : Z) : result lb :=
@@ -292,7 +308,7 @@ Fixpoint first_sel_scan (its : list item) (fb : list fitem) (new_row_offset : Z)
   end.
 
 Definition set_focus_first_selectable (s : lb) (maxrow : Z) (fflag : bool) : result lb :=
-  let s := set_pend s PNone in
+  let s := clear_pending s in
   match visible (items s) (focus s) (off s) (inum s) (iden s) maxrow fflag with
   | Err e => Err e
   | Ok None => Ok s
@@ -320,11 +336,39 @@ Fixpoint find_below (fb : list fitem) (offset position : Z) : option Z :=
       if pos =? position then Some offset else find_below r (offset + rows) position
   end.
 
-(* ListBox._set_focus_complete (set_focus_valign_pending is not modelled: None) *)
-Definition set_focus_complete (s : lb) (maxrow : Z) (fflag : bool) : result lb :=
+(* urwid.util.int_scale *)
+Definition int_scale (val val_range out_range : Z) : Z :=
+  (val * (out_range - 1) * 2 + (val_range - 1)) / ((val_range - 1) * 2).
+
+(* calculate_top_bottom_filler(maxrow, vt, va, GIVEN, rows, None, 0, 0)[0] *)
+Definition top_filler (maxrow : Z) (va : valign) (height : Z) : Z :=
+  let valign := match va with VTop => 0 | VMiddle => 50 | VBottom => 100 | VRel p => p end in
+  let filler := maxrow - height - 0 - 0 in
+  let bottom := 0 + int_scale (100 - valign) 101 (filler + 1) in
+  let top := maxrow - height - bottom in
+  let '(top, bottom) :=
+    if (bottom <? 0) && (0 <? top) then
+      let shift := Z.min top (- bottom) in (top - shift, bottom + shift)
+    else if (top <? 0) && (0 <? bottom) then
+      let shift := Z.min bottom (- top) in (top + shift, bottom - shift)
+    else (top, bottom) in
+  Z.max top 0.
+
+(* ListBox._set_focus_valign_complete *)
+Definition set_focus_valign_complete (s : lb) (maxrow : Z) (fflag : bool) (va : valign) : result lb :=
+  let s := clear_pending s in
+  match nthz (items s) (focus s) with
+  | None => Ok s
+  | Some w =>
+      let rtop := top_filler maxrow va (i_rows w) in
+      shift_focus s maxrow (Z.min rtop (maxrow - 1))
+  end.
+
+(* ListBox._set_focus_complete, the part after the two early returns: a pending set_focus *)
+Definition set_focus_pending_complete (s : lb) (maxrow : Z) (fflag : bool) : result lb :=
   match pend s with
   | PNone => Ok s
-  | PFirst => set_focus_first_selectable s maxrow fflag
+  | PFirst => Ok s                             (* handled before *)
   | PSet cf old =>
       let s := set_pend s PNone in
       match nthz (items s) (focus s) with
@@ -360,6 +404,17 @@ Definition set_focus_complete (s : lb) (maxrow : Z) (fflag : bool) : result lb :
                   end
               end
           end
+      end
+  end.
+
+(* ListBox._set_focus_complete *)
+Definition set_focus_complete (s : lb) (maxrow : Z) (fflag : bool) : result lb :=
+  match pend s with
+  | PFirst => set_focus_first_selectable s maxrow fflag
+  | _ =>
+      match vpend s with
+      | Some va => set_focus_valign_complete s maxrow fflag va
+      | None => set_focus_pending_complete s maxrow fflag
       end
   end.
 
@@ -552,6 +607,325 @@ Definition keypress_down (s : lb) (maxrow : Z) : result (lb * bool) :=
       end
   end.
 
+(* ---------------------------------------------------------------------------------------- *)
+(* page up / page down.  t = list of candidate widgets (row_offset on the new page, position, rows) *)
+Definition titem := (Z * Z * Z)%type.
+Definition t_ro (x : titem) : Z := fst (fst x).
+Definition t_pos (x : titem) : Z := snd (fst x).
+Definition t_rows (x : titem) : Z := snd x.
+Definition t_shift (d : Z) (x : titem) : titem := (t_ro x + d, t_pos x, t_rows x).
+
+Fixpoint zseq (start : Z) (n : nat) : list Z :=
+  match n with O => [] | S k => start :: zseq (start + 1) k end.
+
+(* search_order = list(range(snap_region_start, len(t))) + list(range(snap_region_start - 1, -1, -1)) *)
+Definition search_order (srs len : Z) : list Z :=
+  zseq srs (Z.to_nat (len - srs)) ++ rev (zseq 0 (Z.to_nat srs)).
+
+Definition last_fill_pos (fl : list fitem) (dflt : Z) : Z :=
+  match rev fl with (p, _) :: _ => p | [] => dflt end.
+
+(* state of the first search loop: list box, bad_choices, cut_off_selectable_chosen, the Python
+   variable row_offset *)
+Record pstate := { p_s : lb; p_bad : list Z; p_cut : bool; p_ro : Z }.
+Inductive pres := PDone (s : lb) | PCont (st : pstate).
+
+(* _keypress_page_down: "for widget, pos, rows in fill_below: t.append(...); row_offset += rows" *)
+Fixpoint pd_for (fb : list fitem) (ro : Z) (acc : list titem) : list titem * Z :=
+  match fb with
+  | [] => (acc, ro)
+  | (pos, rows) :: r => pd_for r (ro + rows) (acc ++ [(ro, pos, rows)])
+  end.
+
+(* _keypress_page_down: "while row_offset < maxrow + snap_rows" -> (t, snap_region_start) *)
+Fixpoint pd_while (nexts : list fitem) (limit maxrow ro srs : Z) (acc : list titem) : list titem * Z :=
+  if limit <=? ro then (acc, srs) else
+  match nexts with
+  | [] => (acc, srs)
+  | (pos, rows) :: r =>
+      let ro' := ro + rows in
+      pd_while r limit maxrow ro' (if ro' <? maxrow then srs + 1 else srs) (acc ++ [(ro, pos, rows)])
+  end.
+
+(* _keypress_page_down: "for i in search_order" (first loop) *)
+Fixpoint pd_loop1 (maxrow snap_rows : Z) (t : list titem) (order : list Z) (st : pstate) : result pres :=
+  match order with
+  | [] => Ok (PCont st)
+  | i :: rest =>
+      match nthz t i with
+      | None => Err OtherError
+      | Some (ro, pos, rows) =>
+          let s := p_s st in
+          let st := {| p_s := s; p_bad := p_bad st; p_cut := p_cut st; p_ro := ro |} in
+          if negb (sel_at (items s) pos) then pd_loop1 maxrow snap_rows t rest st
+          else if rows =? 0 then pd_loop1 maxrow snap_rows t rest st
+          else
+            let r :=
+              if maxrow <=? ro then change_focus_sr s maxrow pos (maxrow - 1) CAbove (snap_rows + maxrow - ro - 1)
+              else change_focus_sr s maxrow pos ro CAbove snap_rows in
+            match r with
+            | Err e => Err e
+            | Ok s' =>
+                match visible (items s') (focus s') (off s') (inum s') (iden s') maxrow true with
+                | Err e => Err e
+                | Ok None => Err OtherError
+                | Ok (Some v) =>
+                    let act := v_off_inset v in
+                    let bad c := pd_loop1 maxrow snap_rows t rest
+                                   {| p_s := s'; p_bad := p_bad st ++ [i]; p_cut := c; p_ro := ro |} in
+                    if act <? ro - snap_rows then bad (p_cut st)
+                    else if ro <? act then bad (p_cut st)
+                    else if maxrow <? act + rows then bad true
+                    else Ok (PDone s')
+                end
+            end
+      end
+  end.
+
+(* _keypress_page_down: "for i in good_choices + search_order" -> (new state if a widget was chosen, row_offset) *)
+Fixpoint pd_loop2 (s : lb) (maxrow snap_rows fpos : Z) (t : list titem) (order : list Z) (ro_var : Z)
+  : result (option lb * Z) :=
+  match order with
+  | [] => Ok (None, ro_var)
+  | i :: rest =>
+      match nthz t i with
+      | None => Err OtherError
+      | Some (ro, pos, rows) =>
+          if pos =? fpos then pd_loop2 s maxrow snap_rows fpos t rest ro
+          else if rows =? 0 then pd_loop2 s maxrow snap_rows fpos t rest ro
+          else
+            let '(sr, ro') :=
+              if maxrow <=? ro then (snap_rows - (snap_rows + maxrow - ro - 1), maxrow - 1) else (snap_rows, ro) in
+            match change_focus_sr s maxrow pos ro' CAbove sr with
+            | Err e => Err e
+            | Ok s' => Ok (Some s', ro')
+            end
+      end
+  end.
+
+(* _keypress_page_down up to "if focus_widget (first in t) is off edge, remove it":
+   (snap_rows, t before that removal, snap_region_start) *)
+Definition pd_gather (s : lb) (maxrow : Z) (v : vis) : Z * list titem * Z :=
+  let row_offset := v_off_inset v in
+  let fpos := v_fpos v in
+  let frows := v_frows v in
+  let bottom_edge := maxrow - row_offset in
+  let scroll_from_row :=
+    if negb (sel_at (items s) fpos) then bottom_edge
+    else match v_cursor v with
+         | Some y => y + 1
+         | None => if frows <=? bottom_edge then frows else bottom_edge
+         end in
+  let snap_rows := bottom_edge - scroll_from_row in
+  let row_offset := - scroll_from_row in
+  let '(t, row_offset) := pd_for (v_below v) (row_offset + frows) [(row_offset, fpos, frows)] in
+  let '(t, srs) :=
+    pd_while (below_of (items s) (last_fill_pos (v_below v) fpos)) (maxrow + snap_rows) maxrow row_offset
+             (zlen t) t in
+  (* if we can't fill the bottom we need to adjust the row offsets *)
+  let t := match rev t with
+           | [] => t
+           | x :: _ => if t_ro x + t_rows x <? maxrow then map (t_shift (maxrow - (t_ro x + t_rows x))) t else t
+           end in
+  (snap_rows, t, srs).
+
+(* the candidate widgets 'page down' chooses from: t after the removal of an off-edge first entry *)
+Definition pd_candidates (s : lb) (maxrow : Z) (v : vis) : list titem :=
+  let '(_, t, _) := pd_gather s maxrow v in
+  match t with
+  | [] => []
+  | x0 :: tl => if t_ro x0 + t_rows x0 <=? 0 then tl else t
+  end.
+
+(* ListBox._keypress_page_down *)
+Definition keypress_page_down (s : lb) (maxrow : Z) : result (lb * bool) :=
+  match visible (items s) (focus s) (off s) (inum s) (iden s) maxrow true with
+  | Err e => Err e
+  | Ok None => Ok (s, true)
+  | Ok (Some v) =>
+      let fpos := v_fpos v in
+      let frows := v_frows v in
+      let '(snap_rows, t0, srs) := pd_gather s maxrow v in
+      (* if focus_widget (first in t) is off edge, remove it *)
+      match t0 with
+      | [] => Err OtherError
+      | x0 :: tl =>
+          let t := pd_candidates s maxrow v in
+          let srs := if t_ro x0 + t_rows x0 <=? 0 then srs - 1 else srs in
+          let order := search_order srs (zlen t) in
+          match pd_loop1 maxrow snap_rows t order {| p_s := s; p_bad := []; p_cut := false; p_ro := t_ro x0 |} with
+          | Err e => Err e
+          | Ok (PDone s') => Ok (s', false)
+          | Ok (PCont st) =>
+              let s := p_s st in
+              if p_cut st then Ok (s, false) else
+              let good := filter (fun j => negb (existsb (Z.eqb j) (p_bad st))) order in
+              match pd_loop2 s maxrow snap_rows fpos t (good ++ order) (p_ro st) with
+              | Err e => Err e
+              | Ok (Some s', _) => Ok (s', false)
+              | Ok (None, ro_var) =>
+                  (* no choices available, just shift current one *)
+                  match shift_focus s maxrow (Z.min (Z.max (1 - frows) ro_var) (maxrow - 1)) with
+                  | Err e => Err e
+                  | Ok s =>
+                      match visible (items s) (focus s) (off s) (inum s) (iden s) maxrow true with
+                      | Err e => Err e
+                      | Ok None => Err OtherError
+                      | Ok (Some v2) =>
+                          if v_off_inset v2 <=? ro_var then Ok (s, false) else
+                          match rev t with
+                          | [] => Ok (s, false)
+                          | xl :: _ =>
+                              match nthz (items s) (t_pos xl + 1) with
+                              | None => Ok (s, false)
+                              | Some _ => lift_k (change_focus_sr s maxrow (t_pos xl + 1) (maxrow - 1) CAbove 0)
+                              end
+                          end
+                      end
+                  end
+              end
+          end
+      end
+  end.
+
+(* _keypress_page_up: "for widget, pos, rows in fill_above: row_offset -= rows; t.append(...)" *)
+Fixpoint pu_for (fa : list fitem) (ro : Z) (acc : list titem) : list titem * Z :=
+  match fa with
+  | [] => (acc, ro)
+  | (pos, rows) :: r => pu_for r (ro - rows) (acc ++ [(ro - rows, pos, rows)])
+  end.
+
+(* _keypress_page_up: "while row_offset > -snap_rows" *)
+Fixpoint pu_while (prevs : list fitem) (snap_rows ro srs : Z) (acc : list titem) : list titem * Z :=
+  if ro <=? - snap_rows then (acc, srs) else
+  match prevs with
+  | [] => (acc, srs)
+  | (pos, rows) :: r =>
+      let ro' := ro - rows in
+      pu_while r snap_rows ro' (if 0 <? ro' then srs + 1 else srs) (acc ++ [(ro', pos, rows)])
+  end.
+
+Fixpoint pu_loop1 (maxrow snap_rows : Z) (t : list titem) (order : list Z) (st : pstate) : result pres :=
+  match order with
+  | [] => Ok (PCont st)
+  | i :: rest =>
+      match nthz t i with
+      | None => Err OtherError
+      | Some (ro, pos, rows) =>
+          let s := p_s st in
+          let st := {| p_s := s; p_bad := p_bad st; p_cut := p_cut st; p_ro := ro |} in
+          if negb (sel_at (items s) pos) then pu_loop1 maxrow snap_rows t rest st
+          else if rows =? 0 then pu_loop1 maxrow snap_rows t rest st
+          else
+            let r :=
+              if rows + ro <=? 0 then
+                change_focus_sr s maxrow pos (- (rows - 1)) CBelow (snap_rows - ((- ro) - (rows - 1)))
+              else change_focus_sr s maxrow pos ro CBelow snap_rows in
+            match r with
+            | Err e => Err e
+            | Ok s' =>
+                match visible (items s') (focus s') (off s') (inum s') (iden s') maxrow true with
+                | Err e => Err e
+                | Ok None => Err OtherError
+                | Ok (Some v) =>
+                    let act := v_off_inset v in
+                    let bad c := pu_loop1 maxrow snap_rows t rest
+                                   {| p_s := s'; p_bad := p_bad st ++ [i]; p_cut := c; p_ro := ro |} in
+                    if ro + snap_rows <? act then bad (p_cut st)
+                    else if act <? ro then bad (p_cut st)
+                    else if act <? 0 then bad true
+                    else Ok (PDone s')
+                end
+            end
+      end
+  end.
+
+Fixpoint pu_loop2 (s : lb) (maxrow snap_rows fpos : Z) (t : list titem) (order : list Z) (ro_var : Z)
+  : result (option lb * Z) :=
+  match order with
+  | [] => Ok (None, ro_var)
+  | i :: rest =>
+      match nthz t i with
+      | None => Err OtherError
+      | Some (ro, pos, rows) =>
+          if pos =? fpos then pu_loop2 s maxrow snap_rows fpos t rest ro
+          else if rows =? 0 then pu_loop2 s maxrow snap_rows fpos t rest ro
+          else
+            let '(sr, ro') :=
+              if rows + ro <=? 0 then (snap_rows - ((- ro) - (rows - 1)), - (rows - 1)) else (snap_rows, ro) in
+            match change_focus_sr s maxrow pos ro' CBelow sr with
+            | Err e => Err e
+            | Ok s' => Ok (Some s', ro')
+            end
+      end
+  end.
+
+(* ListBox._keypress_page_up *)
+Definition keypress_page_up (s : lb) (maxrow : Z) : result (lb * bool) :=
+  match visible (items s) (focus s) (off s) (inum s) (iden s) maxrow true with
+  | Err e => Err e
+  | Ok None => Ok (s, true)
+  | Ok (Some v) =>
+      let row_offset := v_off_inset v in
+      let fpos := v_fpos v in
+      let frows := v_frows v in
+      let topmost_visible := row_offset in
+      let scroll_from_row :=
+        if negb (sel_at (items s) fpos) then topmost_visible
+        else match v_cursor v with
+             | Some y => - y
+             | None => if 0 <=? row_offset then 0 else topmost_visible
+             end in
+      let snap_rows := topmost_visible - scroll_from_row in
+      let row_offset := scroll_from_row + maxrow in
+      let '(t, row_offset) := pu_for (v_above v) row_offset [(row_offset, fpos, frows)] in
+      let '(t, srs) :=
+        pu_while (above_of (items s) (last_fill_pos (v_above v) fpos)) snap_rows row_offset (zlen t) t in
+      (* if we can't fill the top we need to adjust the row offsets *)
+      let t := match rev t with
+               | [] => t
+               | x :: _ => if 0 <? t_ro x then map (t_shift (- t_ro x)) t else t
+               end in
+      match t with
+      | [] => Err OtherError
+      | x0 :: tl =>
+          let '(t, srs) := if maxrow <=? t_ro x0 then (tl, srs - 1) else (t, srs) in
+          let order := search_order srs (zlen t) in
+          match pu_loop1 maxrow snap_rows t order {| p_s := s; p_bad := []; p_cut := false; p_ro := t_ro x0 |} with
+          | Err e => Err e
+          | Ok (PDone s') => Ok (s', false)
+          | Ok (PCont st) =>
+              let s := p_s st in
+              if p_cut st then Ok (s, false) else
+              let good := filter (fun j => negb (existsb (Z.eqb j) (p_bad st))) order in
+              match pu_loop2 s maxrow snap_rows fpos t (good ++ order) (p_ro st) with
+              | Err e => Err e
+              | Ok (Some s', _) => Ok (s', false)
+              | Ok (None, ro_var) =>
+                  match shift_focus s maxrow (Z.min (maxrow - 1) ro_var) with
+                  | Err e => Err e
+                  | Ok s =>
+                      match visible (items s) (focus s) (off s) (inum s) (iden s) maxrow true with
+                      | Err e => Err e
+                      | Ok None => Err OtherError
+                      | Ok (Some v2) =>
+                          if ro_var <=? v_off_inset v2 then Ok (s, false) else
+                          match rev t with
+                          | [] => Ok (s, false)
+                          | xl :: _ =>
+                              match nthz (items s) (t_pos xl - 1) with
+                              | None => Ok (s, false)
+                              | Some w =>
+                                  lift_k (change_focus_sr s maxrow (t_pos xl - 1) (- (i_rows w - 1)) CBelow 0)
+                              end
+                          end
+                      end
+                  end
+              end
+          end
+      end
+  end.
+
 (* the item widgets' keypress: 'j'/'k' move the cursor row inside a selectable item that has a
    cursor (handled -> None), everything else is returned unhandled *)
 Definition item_key (w : item) (dir : Z) : option item :=
@@ -572,9 +946,12 @@ Fixpoint replace_nth {A} (n : nat) (l : list A) (x : A) : list A :=
   | y :: r, S k => y :: replace_nth k r x
   end.
 
-Inductive key := KUp | KDown | KCur (dir : Z).
+Inductive key := KUp | KDown | KCur (dir : Z) | KHome | KEnd | KPageUp | KPageDown | KOther.
 
-(* ListBox.keypress for 'up', 'down' and the item keys; bool = key returned (not handled) *)
+(* ListBox.set_focus_valign *)
+Definition set_focus_valign (s : lb) (va : valign) : lb := set_vpend s (Some va).
+
+(* ListBox.keypress; bool = key returned (not handled) *)
 Definition keypress (s : lb) (maxrow : Z) (k : key) : result (lb * bool) :=
   match set_focus_complete s maxrow true with
   | Err e => Err e
@@ -592,6 +969,20 @@ Definition keypress (s : lb) (maxrow : Z) (k : key) : result (lb * bool) :=
               end
           | KUp => keypress_up s maxrow
           | KDown => keypress_down s maxrow
+          | KPageUp => keypress_page_up s maxrow
+          | KPageDown => keypress_page_down s maxrow
+          | KHome =>
+              (* _keypress_max_left: self.focus_position = first position; self.set_focus_valign(TOP) *)
+              match set_focus s 0 CNone with
+              | Err e => Err e
+              | Ok s => Ok (set_focus_valign s VTop, false)
+              end
+          | KEnd =>
+              match set_focus s (zlen (items s) - 1) CNone with
+              | Err e => Err e
+              | Ok s => Ok (set_focus_valign s VBottom, false)
+              end
+          | KOther => Ok (s, true)             (* a key nobody handles *)
           end
       end
   end.
@@ -635,7 +1026,8 @@ Inductive op :=
   | OKey (maxrow : Z) (k : key)
   | OMouse (maxrow button row : Z)
   | OSetFocus (position : Z) (cf : coming)
-  | OSync (f o n d : Z) (p : pending)          (* state after an operation that is not modelled *)
+  | OSync (f o n d : Z) (p : pending) (vp : option valign)   (* state after an operation that is not modelled *)
+  | OValign (va : valign)
   | OItems (its : list item) (f : Z)           (* the walker was edited: new contents and focus *)
   | OShift (maxrow oi : Z)
   | OChange (maxrow position oi : Z) (cf : coming)
@@ -656,8 +1048,9 @@ Definition step (s : lb) (o : op) : result (lb * outcome) :=
       match mouse_press s maxrow button row with Err e => Err e | Ok (s, b) => Ok (s, OutFlag b) end
   | OSetFocus position cf =>
       match set_focus s position cf with Err e => Err e | Ok s => Ok (s, OutState) end
-  | OSync f o n d p =>
-      Ok ({| items := items s; focus := f; off := o; inum := n; iden := d; pend := p |}, OutState)
+  | OSync f o n d p vp =>
+      Ok ({| items := items s; focus := f; off := o; inum := n; iden := d; pend := p; vpend := vp |}, OutState)
+  | OValign va => Ok (set_focus_valign s va, OutState)
   | OItems its f => Ok (set_items s its f, OutState)
   | OShift maxrow oi =>
       match shift_focus s maxrow oi with Err e => Err e | Ok s => Ok (s, OutState) end
@@ -682,10 +1075,13 @@ Fixpoint run (s : lb) (ops : list op) : list (result (lb * outcome)) :=
 (* wire format (harness <-> extracted model)
    case  = nitems (rows sel cy1)* focus off inum iden pending nops op*
            cy1 = 0 for "no cursor", cy+1 otherwise
-           pending = 0 | 1 | 2 cf old        cf = 0 None, 1 above, 2 below
-           op = 1 maxrow fflag | 2 maxrow keycode(1 up, 2 down, 3 j, 4 k) | 3 maxrow button row
+           pending = (0 | 1 | 2 cf old) valign      cf = 0 None, 1 above, 2 below
+           valign  = 0 (none pending) | 1 top | 2 middle | 3 bottom | 4 percent
+           op = 1 maxrow fflag
+              | 2 maxrow keycode(1 up, 2 down, 3 j, 4 k, 5 home, 6 end, 7 page up, 8 page down, 9 other)
+              | 3 maxrow button row
               | 4 position cf | 5 f o n d pending | 6 nitems (rows sel cy1)* f | 7 maxrow oi
-              | 8 maxrow position oi cf | 9 maxrow
+              | 8 maxrow position oi cf | 9 maxrow | 10 valign(1..4 [percent])
    reply = per executed op:  0 <outcome> focus off inum iden pending   or   errcode (and stop)
            outcome = 0 | 1 b | 2 nrows (pos row)* cursor(oz)                                *)
 Definition dec_cf (c : Z) : coming := if c =? 1 then CAbove else if c =? 2 then CBelow else CNone.
@@ -717,15 +1113,36 @@ Definition dec_pending (l : list Z) : option (pending * list Z) :=
 Definition enc_pending (p : pending) : list Z :=
   match p with PNone => [0] | PFirst => [1] | PSet cf old => [2; enc_cf cf; old] end.
 
+Definition dec_valign (l : list Z) : option (option valign * list Z) :=
+  match l with
+  | 0 :: r => Some (None, r)
+  | 1 :: r => Some (Some VTop, r)
+  | 2 :: r => Some (Some VMiddle, r)
+  | 3 :: r => Some (Some VBottom, r)
+  | 4 :: p :: r => Some (Some (VRel p), r)
+  | _ => None
+  end.
+Definition enc_valign (v : option valign) : list Z :=
+  match v with
+  | None => [0] | Some VTop => [1] | Some VMiddle => [2] | Some VBottom => [3] | Some (VRel p) => [4; p]
+  end.
+Definition dec_pending2 (l : list Z) : option (pending * option valign * list Z) :=
+  match dec_pending l with
+  | Some (p, r) => match dec_valign r with Some (v, r') => Some (p, v, r') | None => None end
+  | None => None
+  end.
+
 Definition dec_op (l : list Z) : option (op * list Z) :=
   match l with
   | 1 :: maxrow :: ff :: r => Some (ORender maxrow (negb (ff =? 0)), r)
   | 2 :: maxrow :: k :: r =>
-      Some (OKey maxrow (if k =? 1 then KUp else if k =? 2 then KDown else if k =? 3 then KCur 1 else KCur (-1)), r)
+      Some (OKey maxrow (if k =? 1 then KUp else if k =? 2 then KDown else if k =? 3 then KCur 1
+                         else if k =? 4 then KCur (-1) else if k =? 5 then KHome else if k =? 6 then KEnd
+                         else if k =? 7 then KPageUp else if k =? 8 then KPageDown else KOther), r)
   | 3 :: maxrow :: button :: row :: r => Some (OMouse maxrow button row, r)
   | 4 :: position :: cf :: r => Some (OSetFocus position (dec_cf cf), r)
   | 5 :: f :: o :: n :: d :: r =>
-      match dec_pending r with Some (p, r') => Some (OSync f o n d p, r') | None => None end
+      match dec_pending2 r with Some (p, vp, r') => Some (OSync f o n d p vp, r') | None => None end
   | 6 :: n :: r =>
       if n <? 0 then None else
       match dec_items (Z.to_nat n) r with
@@ -735,6 +1152,7 @@ Definition dec_op (l : list Z) : option (op * list Z) :=
   | 7 :: maxrow :: oi :: r => Some (OShift maxrow oi, r)
   | 8 :: maxrow :: position :: oi :: cf :: r => Some (OChange maxrow position oi (dec_cf cf), r)
   | 9 :: maxrow :: r => Some (OCursorVisible maxrow, r)
+  | 10 :: r => match dec_valign r with Some (Some va, r') => Some (OValign va, r') | _ => None end
   | _ => None
   end.
 
@@ -745,7 +1163,7 @@ Fixpoint dec_ops (fuel : nat) (l : list Z) : list op :=
   end.
 
 Definition enc_state (s : lb) : list Z :=
-  [focus s; off s; inum s; iden s] ++ enc_pending (pend s).
+  [focus s; off s; inum s; iden s] ++ enc_pending (pend s) ++ enc_valign (vpend s).
 
 Definition enc_outcome (o : outcome) : list Z :=
   match o with
@@ -766,9 +1184,9 @@ Definition run_case (l : list Z) : list Z :=
       if n <? 0 then [-1] else
       match dec_items (Z.to_nat n) r with
       | Some (its, f :: o :: nu :: de :: r1) =>
-          match dec_pending r1 with
-          | Some (p, _nops :: r2) =>
-              let s := {| items := its; focus := f; off := o; inum := nu; iden := de; pend := p |} in
+          match dec_pending2 r1 with
+          | Some (p, vp, _nops :: r2) =>
+              let s := {| items := its; focus := f; off := o; inum := nu; iden := de; pend := p; vpend := vp |} in
               flat_map enc_result (run s (dec_ops (length r2) r2))
           | _ => [-1]
           end
